@@ -492,7 +492,15 @@ static void gen_sequence(int maxlen)
 	int style = (int)vrng_below(10);
 
 	/* prefixes that reach the deeper states quickly */
-	if (style >= 2 && n > 4) {
+	if (style >= 8 && n > 8) {
+		/* voice-lifetime cases start from a player with two loaded external samples */
+		call("start_smix", vrng_range(2, 4), vrng_range(2, 3), 0, 0);
+		call("smix_load_sample", 0, 0, 0, 0);
+		call("smix_load_sample", 1, 0, 0, 0);
+		call("load_module", (int)vrng_below(4), 1, (int)vrng_below((uint32_t)nmod), 0);
+		call("start_player", vrng_range(8000, 48000), (int)vrng_below(8), 0, 0);
+		n -= 5;
+	} else if (style >= 2 && n > 4) {
 		if (style >= 7) {
 			call("start_smix", vrng_range(0, 4), vrng_range(0, 3), 0, 0);
 			if (vrng_chance(70))
@@ -508,14 +516,14 @@ static void gen_sequence(int maxlen)
 	}
 	/* voice-lifetime style: external samples are released / reloaded / re-triggered while
 	 * they sound, on modules of every instrument/sample layout */
-	if (style == 9 && n > 6) {
+	if (style >= 8 && n > 3) {
 		int k = vrng_range(3, 12);
 		for (i = 0; i < k && n > 0; i++, n--) {
-			int slot = vrng_chance(75) ? (int)vrng_below(3) : gen_int(4);
+			int slot = vrng_chance(85) ? (int)vrng_below(2) : gen_int(4);
 			switch (vrng_below(7)) {
 			case 0:
 			case 1:
-				call("smix_play_sample", slot, vrng_range(24, 96), vrng_range(16, 64), (int)vrng_below(4));
+				call("smix_play_sample", slot, vrng_range(24, 96), vrng_range(16, 64), (int)vrng_below(2));
 				break;
 			case 2:
 				call("smix_play_instrument", (int)vrng_below(4), vrng_range(24, 96), vrng_range(16, 64), (int)vrng_below(4));
